@@ -156,6 +156,15 @@ func suffixProbes(r *core.Rng) []ast.Node {
 		ast.Assign{Name: "zaddfive", Value: icall("zadd", il(5))},
 		icall("zaddfive", il(int64(r.Intn(9)))),
 		ast.For{Vars: []string{"zi"}, Iters: []ast.Node{icall("fromto", il(0), il(9))}, Body: ast.If{Cond: ast.Binary{Op: "==", L: nm("zi"), R: il(int64(r.Intn(5)))}, Then: ast.Return{X: ast.Binary{Op: "*", L: nm("zi"), R: il(7)}}}},
+		// a closure whose defining frame is live while the stack grows beyond anything the session used so far
+		ast.Assign{Name: "zdeepc", Value: ast.FuncLit{Params: []string{"n"}, Body: ast.If{Cond: ast.Binary{Op: "<=", L: nm("n"), R: il(0)}, Then: il(0), Else: ast.Binary{Op: "+", L: il(1), R: icall("zdeepc", ast.Binary{Op: "-", L: nm("n"), R: il(1)})}}}},
+		ast.Assign{Name: "zgrow", Value: ast.FuncLit{Params: []string{"a", "d"}, Body: ast.Block{Stmts: []ast.Node{
+			ast.Assign{Name: "h", Value: ast.FuncLit{Body: ast.Binary{Op: "*", L: nm("a"), R: il(2)}}},
+			ast.Assign{Name: "x", Value: icall("zdeepc", nm("d"))},
+			ast.Assign{Name: "a", Value: ast.Binary{Op: "+", L: nm("a"), R: il(1)}},
+			ast.Binary{Op: "+", L: icall("h"), R: nm("x")}}}}},
+		icall("zgrow", il(int64(r.Range(1, 9))), il(int64(r.Range(300, 700)))),
+		icall("zgrow", il(int64(r.Range(1, 9))), il(int64(r.Range(900, 1600)))),
 		ast.ArrayLit{Elems: []ast.Node{toa(nm("ga")), toa(nm("gb")), toa(nm("gc")), toa(nm("gw")), toa(nm("gz")), toa(nm("gi"))}},
 	}
 }
